@@ -9,7 +9,7 @@ import (
 func init() {
 	register(&Check{
 		ID: "C11", Level: "exploration", QuickSecs: 150, ThoroughSecs: 1200,
-		Rule:        "skeletons over {'a',.,&{},!{},#{},A} x {?,*,&,!} x seq/choice up to N nodes (quick 4, thorough 5) under a rule-level action, second rule A with a display name and its own action; every fault script giving each block one of {ok, error e<id>, error with a message shared by all blocks, panic(error), panic(string)} with at most 3 faulting blocks, for code predicates both the matching and the failing result; inputs over {a,b} up to L=2; Recover(true)/Recover(false) x filename empty/non-empty; 2 generation flag sets; plus left-recursive rules (direct, tower, indirect pair) generated with -support-left-recursion with the same fault scripts. Compared with the reference: value, complete error list (text incl. file:line:col (offset): rule prefix, order, de-duplication by message), dynamic type errList of *parserError, Inner pointer-identical to the scripted error, panic containment vs propagation. Non-trivial = at least two recorded errors or a panic.",
+		Rule:        "skeletons over {'a',.,&{},!{},#{},A} x {?,*,&,!} x seq/choice up to N nodes (quick 4, thorough 5) under a rule-level action, second rule A with a display name and its own action; a rule attribute family (three rules with blocks, every assignment of display names x both definition orders of the called rules); every fault script giving each block one of {ok, error e<id>, error with a message shared by all blocks, panic(error), panic(string)} with at most 3 faulting blocks, for code predicates both the matching and the failing result; inputs over {a,b} up to L=2; Recover(true)/Recover(false) x filename empty/non-empty; 2 generation flag sets; plus left-recursive rules (direct, tower, indirect pair) generated with -support-left-recursion with the same fault scripts. Compared with the reference: value, complete error list (text incl. file:line:col (offset): rule prefix, order, de-duplication by message), dynamic type errList of *parserError, Inner pointer-identical to the scripted error, panic containment vs propagation. Non-trivial = at least two recorded errors or a panic.",
 		Assumptions: []string{"E1 loader", "scripted probes as code blocks"},
 		Run:         runC11,
 	})
@@ -101,6 +101,33 @@ func runC11(c *ShardCtx) {
 				famLR.refOpts = func(o *peg.Options) { o.LeaderHeads = map[string]bool{"A": true} }
 			}
 			runGrammar(c, g, famLR)
+		}
+	}
+	// rule attributes: every assignment of display names to three rules (each with blocks that
+	// can fail) x both definition orders of the called rules: the prefix names the rule (display
+	// name if given) the error arose in, whatever was defined before it
+	for mask := 0; mask < 8; mask++ {
+		for order := 0; order < 2; order++ {
+			idx++
+			if !c.Mine(idx) {
+				continue
+			}
+			disp := func(bit int, d string) string {
+				if mask&bit != 0 {
+					return d
+				}
+				return ""
+			}
+			ra := &peg.Rule{Name: "A", Display: disp(2, "the A"), Expr: peg.Action(0, peg.Cls(false, false, "a", "b"))}
+			rb := &peg.Rule{Name: "B", Display: disp(4, "a B"), Expr: peg.Choice(peg.Action(0, peg.Lit("b")), peg.Seq(peg.AndCode(0), peg.Action(0, peg.Any())))}
+			g := &peg.Grammar{Rules: []*peg.Rule{{Name: "S", Display: disp(1, "start"), Expr: peg.Action(0, peg.Seq(peg.Ref("A"), peg.Opt(peg.Ref("B"))))}, ra, rb}}
+			if order == 1 {
+				g.Rules[1], g.Rules[2] = g.Rules[2], g.Rules[1]
+			}
+			peg.Renumber(g, 1)
+			peg.AssignArgs(g)
+			fam := &family{gens: gens2, inputs: inputs, opts: opts, scripts: faultScripts(g.Blocks(), 2, true), nontrivial: nontriv, cmp: core.CmpOpts{SkipLog: true}, confEvery: 5, confQuota: 1}
+			runGrammar(c, g, fam)
 		}
 	}
 	for _, body := range en.UpTo(n) {
